@@ -185,36 +185,131 @@ def ev(tok, dt, K):
 
 
 # ----------------------------------------------------------------------------- systems
-def gen_system(rng, jacobi_only=False):
-    """star + planets (+ test particles): list of (m, x,y,z, vx,vy,vz), N_active, testparticle_type, dt"""
+DIMS = {}
+
+
+def dim(name, n=1):
+    """coverage.dimensions: number of evaluated cases per cross-cutting dimension"""
+    DIMS[name] = DIMS.get(name, 0) + n
+
+
+def dims_of(system, where):
+    """count the dimensions a generated system carries, once per evaluated case"""
+    for d in system.get("dims", []):
+        dim(d)
+        dim(d + " @" + where)
+
+
+FORCED = ["many", "hyper", "single", "massive0", "massive1", "massless0", "massless1", "zeroactive", "long", "neg", "huge", "soft", "G"]
+
+
+def gen_system(rng, physics=False, force=None):
+    """star + planets (+ test particles): list of (m, x,y,z, vx,vy,vz), N_active, testparticle_type, dt,
+    crossed with the cross-cutting dimensions (particle roles, G, softening, sign of dt, start time,
+    geometry, scale).  `physics`: for the to-rounding comparisons leave out what only makes sense for the
+    bitwise clauses (steps longer than a period, hyperbolic fly-by, huge |t|/dt, hundreds of particles)."""
+    dims = []
     npl = rng.randint(1, 4)
     ntp = rng.choice([0, 0, 1, 2])
+    if force in ("single", "massive0", "massive1", "massless0", "massless1") and ntp == 0:
+        ntp = 2
+    if force == "zeroactive" and npl < 2:
+        npl = 3
     m0 = rng.choice([1.0, 1.0, 0.7, 2.5])
+    G = rng.choice([1.0, 1.0, 1.0, 39.47841760435743, 0.3])
+    if force == "G":
+        G = 39.47841760435743
+    if G != 1.0:
+        dims.append("G != 1")
     ps = [(m0, 0.0, 0.0, 0.0, 0.0, 0.0, 0.0)]
     a = rng.uniform(0.6, 1.4)
     amin = a
+    role = rng.choice(["massless", "massless", "massive", "zero-mass-active", "plain"])
+    if force in ("massive0", "massive1"):
+        role = "massive"
+    if force in ("massless0", "massless1"):
+        role = "massless"
+    if force == "zeroactive":
+        role = "zero-mass-active"
+    many = (not physics) and (rng.chance(0.04) or force == "many")
+    if many:
+        ntp = rng.randint(125, 135)       # crosses the 128-entry allocation boundary
+        dims.append("N > 128 (allocation boundary)")
     for i in range(npl + ntp):
         m = 0.0 if i >= npl else rng.loguniform(1e-6, 1e-3)
+        if i >= npl and role == "massive" and not many:
+            m = rng.loguniform(1e-7, 1e-4)          # massive test particle
+        if i == npl - 1 and npl >= 2 and role == "zero-mass-active":
+            m = 0.0                                  # a zero-mass body among the active ones
         e = rng.uniform(0.0, 0.25)
         inc = rng.uniform(0.0, 0.2)
         f = rng.uniform(0, 2 * math.pi)
         om = rng.uniform(0, 2 * math.pi)
-        r = a * (1 - e * e) / (1 + e * math.cos(f))
-        v0 = math.sqrt(m0 / (a * (1 - e * e)))
+        aa = a if not (many and i >= npl) else rng.uniform(0.5, 6.0)
+        r = aa * (1 - e * e) / (1 + e * math.cos(f))
+        v0 = math.sqrt(G * m0 / (aa * (1 - e * e)))
         xo, yo = r * math.cos(f), r * math.sin(f)
         vxo, vyo = -v0 * math.sin(f), v0 * (e + math.cos(f))
         co, so, ci, si = math.cos(om), math.sin(om), math.cos(inc), math.sin(inc)
         x, y, z = co * xo - so * yo * ci, so * xo + co * yo * ci, yo * si
         vx, vy, vz = co * vxo - so * vyo * ci, so * vxo + co * vyo * ci, vyo * si
         ps.append((m, x, y, z, vx, vy, vz))
-        a *= rng.uniform(1.6, 2.2)
-    # shuffle test particles in only at the end (N_active semantics need them last)
+        if not (many and i >= npl):
+            a *= rng.uniform(1.6, 2.2)
+    if (not physics) and (rng.chance(0.08) or force == "hyper"):
+        # an unbound (hyperbolic) light body passing outside the system
+        q, vinf = a * 1.5, math.sqrt(G * m0 / a) * 1.2
+        vp = math.sqrt(vinf * vinf + 2 * G * m0 / q)
+        ps.append((0.0 if ntp else 1e-9, q, 0.0, 0.0, 0.0, vp, 0.0))
+        if ntp:
+            ntp += 1
+        else:
+            npl += 1
+        dims.append("hyperbolic body")
+    # centre of mass away from the origin and moving
     off = [rng.normal() * 0.3 for _ in range(6)]
     ps = [(p[0],) + tuple(p[1 + k] + off[k] for k in range(6)) for p in ps]
+    dims.append("centre of mass offset and moving")
     tp_type = rng.choice([0, 0, 1]) if ntp else 0
     n_active = (npl + 1) if (ntp and rng.chance(0.8)) else -1
-    dt = 2 * math.pi * amin ** 1.5 / math.sqrt(m0) * rng.uniform(0.01, 0.06)
-    return {"particles": ps, "N_active": n_active, "testparticle_type": tp_type, "dt": dt}
+    if force in ("massive0", "massless0", "massive1", "massless1"):
+        tp_type = int(force[-1])
+        n_active = npl + 1
+    if ntp and (rng.chance(0.1) or force == "single"):
+        n_active = 1                                 # a single active body, everything else test particles
+        dims.append("single active body")
+    if n_active != -1:
+        dims.append("N_active < N, testparticle_type %d" % tp_type)
+        if any(p[0] != 0.0 for p in ps[n_active:]):
+            dims.append("massive test particles, type %d" % tp_type)
+        else:
+            dims.append("massless test particles")
+    if any(p[0] == 0.0 for p in ps[1:(n_active if n_active != -1 else len(ps))]):
+        dims.append("zero-mass active body")
+    period = 2 * math.pi * amin ** 1.5 / math.sqrt(G * m0)
+    dt = period * rng.uniform(0.01, 0.06)
+    if (not physics) and (rng.chance(0.07) or force == "long"):
+        dt = period * rng.uniform(1.1, 2.3)
+        dims.append("step longer than a period")
+    if rng.chance(0.2) or force == "neg":
+        dt = -dt
+        dims.append("dt < 0")
+    t0 = 0.0
+    if (not physics) and (rng.chance(0.08) or force == "huge"):
+        t0 = dt * rng.uniform(1e9, 1e12)
+        dims.append("|t|/dt huge")
+    soft = 0.0
+    if rng.chance(0.08) or force == "soft":
+        soft = 1e-3 * amin
+        dims.append("softening != 0")
+    return {"particles": ps, "N_active": n_active, "testparticle_type": tp_type, "dt": dt, "G": G, "t0": t0,
+            "softening": soft, "dims": dims}
+
+
+def no_testparticles(system):
+    system["N_active"], system["testparticle_type"] = -1, 0
+    system["dims"] = [d for d in system.get("dims", []) if not d.startswith(("N_active", "massive test", "massless test", "single active"))]
+    return system
 
 
 def gen_crossing(rng):
@@ -234,7 +329,7 @@ def gen_crossing(rng):
     if ntp:
         ps.append((0.0, 1.03 * math.cos(f0 + 0.03), 1.03 * math.sin(f0 + 0.03), 0.0, -0.98 * math.sin(f0 + 0.03), 0.98 * math.cos(f0 + 0.03), 0.0))
     return {"particles": ps, "N_active": (4 if ntp and rng.chance(0.7) else -1), "testparticle_type": rng.choice([0, 1]) if ntp else 0,
-            "dt": 2 * math.pi * rng.uniform(0.01, 0.03)}
+            "dt": 2 * math.pi * rng.uniform(0.01, 0.03), "dims": ["close encounters (MERCURIUS)"]}
 
 
 class World:
@@ -253,7 +348,7 @@ class World:
             getattr(lib, n).argtypes = [ctypes.c_void_p, D]
             getattr(lib, n).restype = None
         for n in ("reb_integrator_whfast_from_inertial", "reb_integrator_whfast_to_inertial", "reb_simulation_update_acceleration",
-                  "reb_whfast_calculate_jerk", "reb_simulation_step", "reb_simulation_synchronize", "reb_simulation_rescale_var",
+                  "reb_whfast_calculate_jerk", "reb_simulation_step", "reb_simulation_synchronize", "reb_simulation_rescale_var", "reb_simulation_reset_integrator",
                   "reb_integrator_mercurius_inertial_to_dh", "reb_integrator_mercurius_dh_to_inertial",
                   "reb_integrator_mercurius_part2"):
             getattr(lib, n).argtypes = [ctypes.c_void_p]
@@ -279,6 +374,9 @@ class World:
         s.N_active = system["N_active"]
         s.testparticle_type = system["testparticle_type"]
         s.dt = system["dt"]
+        s.G = system.get("G", 1.0)
+        s.t = system.get("t0", 0.0)
+        s.softening = system.get("softening", 0.0)
         s.integrator = integrator
         setup(s)
         return s
@@ -529,8 +627,8 @@ class Clock:
     """emulation of the time arithmetic of reb_simulation_step / reb_check_exit / integrate_raw
     (decides how many full and shortened steps an integrate call makes)"""
 
-    def __init__(self, dt, halves):
-        self.t, self.dt, self.halves = 0.0, dt, halves
+    def __init__(self, dt, halves, t0=0.0):
+        self.t, self.dt, self.halves = t0, dt, halves
 
     def step(self):
         if self.halves:
@@ -666,16 +764,17 @@ def replay(c, W, exe, ncases, family):
     lines, cases = [], []
     for case in range(ncases):
         rng = c.rng.fork()
-        system = gen_system(rng)
+        system = gen_system(rng, force=(FORCED[case] if case < len(FORCED) else None))
         ops = gen_ops(rng, rng.randint(3, 9))
         if "s" not in ops:
             ops.append("s")
-        toks, ops = add_integrates(rng, ops, Clock(system["dt"], family in ("whfast", "var")), (W.K["syncFirst"], W.K["forceSync"]))
+        toks, ops = add_integrates(rng, ops, Clock(system["dt"], family in ("whfast", "var"), system.get("t0", 0.0)), (W.K["syncFirst"], W.K["forceSync"]))
         if family == "var":
             mode = rng.choice(["safe", "unsafe", "keep", "keep"])
             o = dict(coord=0, kernel=0, corrector=0, corrector2=0, safe=int(mode == "safe"), keep=int(mode == "keep"),
                      nvar=rng.randint(1, 2))
-            system["N_active"], system["testparticle_type"] = -1, 0
+            no_testparticles(system)
+            system["dims"].append("variational particles (1st order, non-zero)")
             lines.append("V %d %d 1 0 0 %s" % (o["safe"], o["keep"], " ".join(toks)))
             base = whfast_setup(o)
 
@@ -693,11 +792,28 @@ def replay(c, W, exe, ncases, family):
         else:
             mode = rng.choice(["safe", "unsafe", "unsafe", "keep", "keep"])
             o = dict(type=rng.choice(sorted(SABA_ROWS)), safe=int(mode == "safe"), keep=int(mode == "keep"))
-            if rng.chance(0.7):
-                system["N_active"], system["testparticle_type"] = -1, 0
+            if rng.chance(0.3):
+                no_testparticles(system)
             lines.append("S %d %d %d %d 1 0 0 %s" % (o["type"], o["safe"], o["keep"], W.K["copyInside"], " ".join(toks)))
             setup = saba_setup(o)
             key = (o["type"], o["safe"], o["keep"])
+        dims_of(system, "replay " + family)
+        for t_ in toks:
+            if t_.startswith("i:"):
+                f_ = t_.split(":")
+                dim("integrate() split into several calls")
+                dim("exact_finish_time %s" % f_[3])
+                if f_[4] == "1":
+                    dim("direction reversal between calls")
+            elif t_.startswith("c:"):
+                dim("pre/post_timestep_modifications editing particles")
+            elif t_ in ("p", "f"):
+                dim("user edits of particles / flags between steps")
+            elif t_ == "y":
+                dim("explicit synchronize")
+        dim("safe_mode=0" if not o.get("safe") else "safe_mode=1")
+        if o.get("keep"):
+            dim("keep_unsynchronized=1")
         cases.append((o, system, ops, setup, key, toks))
     out = run_driver(exe, lines)
     if len(out) != len(lines):
@@ -791,7 +907,7 @@ def replay_mercurius(c, W, exe, ncases, coarse=False):
     lines, cases = [], []
     for case in range(ncases):
         rng = c.rng.fork()
-        system = gen_system(rng)
+        system = gen_system(rng, physics=True)    # no steps longer than a period etc.: dcrit ~ 0.4 v dt would turn every step into an encounter step
         if coarse:
             system = gen_crossing(rng)
         else:
@@ -801,8 +917,9 @@ def replay_mercurius(c, W, exe, ncases, coarse=False):
         if "s" not in ops:
             ops.append("s")
         safe = int(rng.chance(0.35))
-        toks, ops = add_integrates(rng, ops, Clock(system["dt"], False), (W.K["syncFirst"], W.K["forceSync"]), no_exact=coarse)
+        toks, ops = add_integrates(rng, ops, Clock(system["dt"], False, system.get("t0", 0.0)), (W.K["syncFirst"], W.K["forceSync"]), no_exact=coarse)
         lines.append("%s %d 1 0 0 0 0 %s" % ("MC" if coarse else "M", safe, " ".join(toks)))
+        dims_of(system, "replay mercurius")
         cases.append((safe, system, ops, toks))
     out = run_driver(exe, lines)
     if len(out) != len(lines):
@@ -1004,6 +1121,7 @@ def replay_eos(c, W, exe):
             if "s" not in ops:
                 ops[0] = "s"
             lines.append("E %d %d %d %d 1 %s %s" % (p0, p1, n, safe, d2h(system["dt"]), " ".join(ops)))
+            dims_of(system, "replay eos")
             cases.append((p0, p1, n, safe, system, ops))
     out = run_driver(exe, lines)
     if len(out) != len(lines):
@@ -1293,6 +1411,30 @@ def probe_first_call(c, d):
     c.cov["first_call_probe"] = res
 
 
+def tweak(W, system, integ, label, where):
+    """integrator-specific adjustments of a generated system + dimension counting"""
+    if integ == "saba" and not W.K["sabaSplit"]:
+        no_testparticles(system)                     # source as found: SABA transforms with N_active := N
+    if "var=" in label:
+        no_testparticles(system)
+        nv, mg = int(label.split("var=")[1][0]), "megno=1" in label
+        if nv:
+            system["dims"].append("variational particles (1st order, non-zero)")
+        if mg:
+            system["dims"].append("init_megno")
+    if integ == "mercurius":
+        system["particles"] = [p if i == 0 else (p[0] * 0.03,) + p[1:] for i, p in enumerate(system["particles"])]
+    if integ == "eos":
+        system["dt"] *= 0.2          # low-order splittings: stay in the asymptotic regime
+    if "c2=1" in label:
+        # make the second corrector non-negligible (it is O(eps^2 dt^4)): Jupiter-mass planets
+        system["particles"] = [p if (i == 0 or p[0] == 0.0) else (1e-3 * system["particles"][0][0],) + p[1:]
+                               for i, p in enumerate(system["particles"])]
+    dims_of(system, where)
+    dim("integrator " + integ + " @" + where)
+    return system
+
+
 def api_sequences(c, W, cfgs):
     """(b) sequences of public API calls — steps(n), integrate(t+d) with d<dt, =dt, >dt, backwards, 0,
     exact_finish_time 0/1, synchronize — in unsafe mode must reproduce the same calls in safe mode"""
@@ -1306,13 +1448,7 @@ def api_sequences(c, W, cfgs):
             continue                      # F18 is reported by search(); here it would only mask other things
         for q in range(nseq):
             rng = c.rng.fork()
-            system = gen_system(rng)
-            if integ == "saba":
-                system["N_active"], system["testparticle_type"] = -1, 0
-            if integ == "mercurius":
-                system["particles"] = [p if i == 0 else (p[0] * 0.03,) + p[1:] for i, p in enumerate(system["particles"])]
-            if integ == "eos":
-                system["dt"] *= 0.2
+            system = tweak(W, gen_system(rng, physics=True), integ, label, "api sequences")
             plan = []
             for _ in range(rng.randint(3, 7)):
                 u = rng.uniform()
@@ -1411,11 +1547,11 @@ def archive_outputs(c, W, cfgs):
         beat("archive_outputs " + label)
         for rep in range(3 if c.thorough else 1):
             rng = c.rng.fork()
-            system = gen_system(rng)
-            if integ == "saba":
-                system["N_active"], system["testparticle_type"] = -1, 0
-            if integ == "mercurius":
-                system["particles"] = [p if i == 0 else (p[0] * 0.03,) + p[1:] for i, p in enumerate(system["particles"])]
+            system = gen_system(rng, physics=True)
+            system["dt"] = abs(system["dt"])
+            system["dims"] = [d for d in system["dims"] if d != "dt < 0"]
+            system = tweak(W, system, integ, label, "archive outputs")
+            dim("archive restore mid-run (getSimulation snapshot/close/exact)")
             dt = system["dt"]
             T = dt * rng.uniform(38.3, 44.7)
             fn = os.path.join(tmpdir, "a.bin")
@@ -1520,18 +1656,37 @@ def callback_search(c, W, cfgs):
             pp[i].vy = pp[i].vy * f
             pp[i].vz = pp[i].vz * f
 
+    def reader(sp):
+        W.lib.reb_simulation_energy(sp)
+
+    def force_pos(sp):
+        s_ = sp.contents
+        pp = s_._particles
+        for i in range(1, s_.N):
+            pp[i].ax = pp[i].ax - 1e-3 * pp[i].x
+            pp[i].ay = pp[i].ay - 1e-3 * pp[i].y
+
+    def force_vel(sp):
+        s_ = sp.contents
+        pp = s_._particles
+        for i in range(1, s_.N):
+            pp[i].ax = pp[i].ax - 1e-3 * pp[i].vx
+            pp[i].ay = pp[i].ay - 1e-3 * pp[i].vy
+            pp[i].az = pp[i].az - 1e-3 * pp[i].vz
+
     for label, integ, mk, has_keep in pick:
         fam = label.split()[0]
         beat("callback_search " + label)
-        for which in ("pre", "post", "both"):
+        for which in ("pre", "post", "both", "readonly", "force_pos", "force_vel"):
             rng = c.rng.fork()
-            system = gen_system(rng)
-            if integ == "saba":
-                system["N_active"], system["testparticle_type"] = -1, 0
-            if integ == "mercurius":
-                system["particles"] = [p if i == 0 else (p[0] * 0.03,) + p[1:] for i, p in enumerate(system["particles"])]
-            if integ == "eos":
-                system["dt"] *= 0.2
+            if which == "force_vel" and (("whfast" in label and ("corr0" not in label or " k0" not in label)) or "SABAC" in label
+                                         or integ == "mercurius"):
+                # (MERCURIUS is kick-first: deferring merges two half kicks, which is exact only for
+                # forces that do not depend on the velocities the kick changes)
+                # symplectic correctors / modified kicks are built on kicks that depend on positions only
+                # (docs: "works for Newtonian gravity only"): safe = unsafe is not promised there
+                continue
+            system = tweak(W, gen_system(rng, physics=True), integ, label, "callbacks")
 
             def run_cb(mode, halve=False):
                 sy = dict(system)
@@ -1542,6 +1697,14 @@ def callback_search(c, W, cfgs):
                     s_.pre_timestep_modifications = drag
                 if which in ("post", "both"):
                     s_.post_timestep_modifications = drag
+                if which == "readonly":
+                    s_.pre_timestep_modifications = reader
+                    s_.post_timestep_modifications = reader
+                if which == "force_pos":
+                    s_.additional_forces = force_pos
+                if which == "force_vel":
+                    s_.additional_forces = force_vel
+                    s_.force_is_velocity_dependent = 1
                 for _ in range(nsteps * (2 if halve else 1)):
                     W.lib.reb_simulation_step(ctypes.byref(s_))
                 W.lib.reb_simulation_synchronize(ctypes.byref(s_))
@@ -1556,14 +1719,127 @@ def callback_search(c, W, cfgs):
                 ch = run_cb("safe", True)
                 tol = 10 * max(max(abs(a[k] - b[k]) / (sx if k < 3 else sv) for k in range(6)) for a, b in zip(ca, ch)) + 1e-10
             c.count(("callback", label, which))
+            dim({"pre": "pre/post_timestep_modifications editing particles", "post": "pre/post_timestep_modifications editing particles",
+                 "both": "pre/post_timestep_modifications editing particles", "readonly": "pre/post_timestep_modifications read-only",
+                 "force_pos": "additional_forces (position dependent)", "force_vel": "additional_forces (velocity dependent)"}[which])
             worst[fam] = max(worst.get(fam, 0.0), err if integ != "eos" else err / tol)
             if not err <= tol:
-                c.violation("callback:%s:%s" % (fam, which),
-                            "%s: with a %s_timestep_modifications callback that edits velocities (drag), unsafe mode + synchronize differs from safe mode by %.3g relative after %d steps"
-                            % (label, "pre/post" if which == "both" else which, err, nsteps),
+                c.violation("C09:mercurius-additional-forces-frame" if (integ == "mercurius" and which.startswith("force")) else "callback:%s:%s" % (fam, which),
+                            "%s: with callbacks '%s' installed (pre/post/both: a drag edit of the velocities; readonly: energy(); force_*: additional_forces), unsafe mode + synchronize differs from safe mode by %.3g relative after %d steps"
+                            % (label, which, err, nsteps),
                             {"integrator": integ, "label": label, "system": system, "callback": which, "steps": nsteps,
                              "edit": "v *= 1 - 0.002*|dt| for every particle but the first", "relative_difference": err})
     c.cov["callback_search_worst (eos: fraction of its tolerance)"] = {k: float("%.3g" % v) for k, v in sorted(worst.items())}
+
+
+def history_search(c, W, cfgs):
+    """(ix) histories done the documented way (docs/integrators.md: "care must be taken to synchronize and
+    recalculate coordinates manually"): steps in unsafe mode, synchronize, then change dt / add a particle /
+    remove a particle / run another integrator (and come back with the recalculate flags set, or through
+    reset_integrator), continue, synchronize — must give what safe mode gives.  The same histories WITHOUT
+    the synchronize are the user's responsibility; their deviation is only recorded.
+    Also: a read-only heartbeat and the Python integrate() with the finish-mode argument omitted."""
+    want = ["whfast c0 k0 corr0 c2=0", "whfast c1 k0 corr0 c2=0", "whfast c3 k0 corr0 c2=0", "whfast c0 k0 corr7 c2=0",
+            "saba SABA(10,6,4)", "saba SABACM2", "mercurius", "eos phi0=0 phi1=0 n=2", "eos phi0=3 phi1=1 n=2"]
+    pick = [x for x in cfgs if x[0] in want] if not c.thorough else [x for x in cfgs if "c2=1" not in x[0] and "var=" not in x[0]]
+    worst, unsynced = {}, {}
+    ris = lambda s_: (s_.ri_whfast, s_.ri_saba, s_.ri_eos, s_.ri_mercurius)
+
+    def do(s_, name, sync, extra):
+        r_ = ctypes.byref(s_)
+        for _ in range(7):
+            W.lib.reb_simulation_step(r_)
+        if sync:
+            W.lib.reb_simulation_synchronize(r_)
+        if name == "dt changed":
+            s_.dt = s_.dt * 0.61
+        elif name == "particle added":
+            s_.add(m=extra[0], x=extra[1], y=extra[2], z=extra[3], vx=extra[4], vy=extra[5], vz=extra[6])
+        elif name == "particle removed":
+            s_.remove(s_.N - 1)
+        elif name.startswith("integrator switched"):
+            old = s_.integrator
+            s_.integrator = "leapfrog"
+            for _ in range(3):
+                W.lib.reb_simulation_step(r_)
+            s_.integrator = old
+            if name.endswith("flags set"):
+                s_.ri_whfast.recalculate_coordinates_this_timestep = 1
+                s_.ri_mercurius.recalculate_coordinates_this_timestep = 1
+            else:
+                sm = [ri.safe_mode for ri in ris(s_)]
+                conf = (s_.ri_whfast._coordinates, s_.ri_whfast.corrector, s_.ri_saba._type, s_.ri_eos._phi0, s_.ri_eos._phi1, s_.ri_eos.n)
+                W.lib.reb_simulation_reset_integrator(r_)      # also sets r->integrator = IAS15
+                s_.integrator = old
+                for ri, v in zip(ris(s_), sm):
+                    ri.safe_mode = v
+                s_.ri_whfast._coordinates, s_.ri_whfast.corrector, s_.ri_saba._type, s_.ri_eos._phi0, s_.ri_eos._phi1, s_.ri_eos.n = conf
+        for _ in range(7):
+            W.lib.reb_simulation_step(r_)
+        W.lib.reb_simulation_synchronize(r_)
+        return coords(W, s_)
+
+    def rel(ca, cb):
+        n = min(len(ca), len(cb))
+        sx = max(abs(v) for p in ca for v in p[:3])
+        sv = max(abs(v) for p in ca for v in p[3:])
+        return max(max(abs(a[k] - b[k]) / (sx if k < 3 else sv) for k in range(6)) for a, b in zip(ca[:n], cb[:n]))
+
+    for label, integ, mk, has_keep in pick:
+        fam = label.split()[0]
+        beat("history_search " + label)
+        for name in ("dt changed", "particle added", "particle removed", "integrator switched, flags set", "integrator switched, reset_integrator"):
+            rng = c.rng.fork()
+            system = tweak(W, gen_system(rng, physics=True), integ, label, "histories")
+            if len(system["particles"]) < 3 and name == "particle removed":
+                continue
+            if "kernel" in label and " k0" not in label and name.endswith("reset_integrator"):
+                continue
+            last = system["particles"][-1]
+            extra = (0.0 if (system["N_active"] != -1) else 1e-6,) + tuple(v * 1.9 if k < 3 else v * 0.7 for k, v in enumerate(last[1:]))
+            ca = do(W.sim(system, integ, mk("safe")), name, True, extra)
+            cu = do(W.sim(system, integ, mk("unsafe")), name, True, extra)
+            err = rel(ca, cu)
+            tol = 1e-10
+            if integ == "eos":
+                tol = 1e-3      # EOS: truncation level (no halved-dt yardstick for a history that changes dt / N)
+            c.count(("history", label, name))
+            dim("history: " + name + " after synchronize")
+            worst[fam + ": " + name] = max(worst.get(fam + ": " + name, 0.0), err)
+            if not err <= tol:
+                c.violation("history:%s:%s" % (fam, name.split(",")[0]),
+                            "%s: 7 steps (unsafe), synchronize, %s, 7 steps, synchronize differs from the same history in safe mode by %.3g relative"
+                            % (label, name, err),
+                            {"integrator": integ, "label": label, "system": system, "history": name, "relative_difference": err})
+            # the same without the synchronize: the user's responsibility, recorded only
+            try:
+                cw = do(W.sim(system, integ, mk("unsafe")), name, False, extra)
+                e2 = rel(ca, cw)
+                e2 = e2 if e2 == e2 else float("inf")
+            except Exception:
+                e2 = float("inf")
+            unsynced[fam + ": " + name] = max(unsynced.get(fam + ": " + name, 0.0), e2)
+        # read-only heartbeat during integrate(): must not change a bit; Python integrate() without finish mode
+        rng = c.rng.fork()
+        system = tweak(W, gen_system(rng, physics=True), integ, label, "heartbeat")
+        A = W.sim(system, integ, mk("unsafe"))
+        B = W.sim(system, integ, mk("unsafe"))
+        seen = []
+
+        def hb(sp):
+            seen.append(W.lib.reb_simulation_energy(sp))
+        B.heartbeat = hb
+        tend = system.get("t0", 0.0) + 9.3 * system["dt"]
+        A.integrate(tend)                # Python layer, exact_finish_time omitted (= 1)
+        B.integrate(tend)
+        dim("heartbeat (read-only) during integrate")
+        dim("integrate() with the finish-mode argument omitted")
+        c.count(("heartbeat", label))
+        if final_state(W, A, integ) != final_state(W, B, integ) or not seen or not abs(A.t - tend) <= 1e-12 * max(abs(tend), abs(system["dt"])):
+            c.violation("heartbeat:%s" % fam, "%s: a read-only heartbeat (energy()) during integrate() changes the result, was not called, or t != tmax (t=%r, tmax=%r)"
+                        % (label, A.t, tend), {"integrator": integ, "label": label, "system": system, "tmax": tend})
+    c.cov["history_search_worst_relative_difference"] = {k: float("%.3g" % v) for k, v in sorted(worst.items())}
+    c.cov["histories_without_synchronize (user responsibility, recorded only)"] = {k: (float("%.3g" % v) if v != float("inf") else "nan/inf") for k, v in sorted(unsynced.items())}
 
 
 def search(c, W):
@@ -1581,18 +1857,11 @@ def search(c, W):
         for isys in range(nsys):
             beat("search " + label)
             rng = c.rng.fork()
-            system = gen_system(rng)
-            if integ in ("saba",):
-                system["N_active"], system["testparticle_type"] = -1, 0     # SABA transforms with N_active = N
-            if integ == "mercurius":
-                system["particles"] = [p if i == 0 else (p[0] * 0.03,) + p[1:] for i, p in enumerate(system["particles"])]
-            if integ == "eos":
-                system["dt"] *= 0.2          # low-order splittings: stay in the asymptotic regime
+            system_phys = tweak(W, gen_system(rng, physics=True), integ, label, "safe vs unsafe")
+            icfg = [x[0] for x in cfgs].index(label)
+            system = tweak(W, gen_system(rng, physics=(integ == "mercurius"), force=(FORCED[icfg % len(FORCED)] if isys == 0 else None)),
+                           integ, label, "bitwise clauses")
             is_c2 = "c2=1" in label
-            if is_c2:
-                # make the second corrector non-negligible (it is O(eps^2 dt^4)): Jupiter-mass planets
-                system["particles"] = [p if (i == 0 or p[0] == 0.0) else (1e-3 * system["particles"][0][0],) + p[1:]
-                                       for i, p in enumerate(system["particles"])]
             # ---------------- (i) interruptions do not change a bit; a copy / reloaded snapshot taken at an
             # unsynchronised intermediate time continues on the same trajectory, bit for bit
             for rep in range(3 if c.thorough else 2):
@@ -1616,6 +1885,9 @@ def search(c, W):
                                 os.remove(fn)
                             B.save_to_file(fn)
                             clones.append(("save_to_file + Simulation(file)", W.rb.Simulation(fn)))
+                            import pickle
+                            clones.append(("pickle", pickle.loads(pickle.dumps(B))))
+                            dim("save / copy / pickle restore mid-run, continued")
                         except Exception as ex:
                             c.violation("clone-raises:" + label.split()[0], "%s (%s): copy / save+load after step %d raises %s" % (label, mode, k, str(ex)[:150]),
                                         {"integrator": integ, "label": label, "mode": mode, "system": system, "clone_after_step": k})
@@ -1625,6 +1897,7 @@ def search(c, W):
                             if not allow_sync and kind in ("sync", "sync2"):
                                 kind = "energy"
                             plan.append((k, kind))
+                            dim("diagnostics (energy/orbits/com/angular momentum) and outputs between steps, %s" % integ)
                             interrupt(W, B, kind, tmpdir, allow_sync)
                 mid = (final_state(W, A, integ), final_state(W, B, integ)) if not allow_sync else None
                 W.lib.reb_simulation_synchronize(ctypes.byref(A))
@@ -1672,6 +1945,7 @@ def search(c, W):
                 c.violation("sync-twice:" + label.split()[0], "%s: synchronize twice differs from synchronize once" % label,
                             {"integrator": integ, "label": label, "system": system, "steps": 5})
             # ---------------- (ii) safe vs unsafe
+            system = system_phys
             A = W.sim(system, integ, mk("safe"))
             B = W.sim(system, integ, mk("unsafe"))
             syncs = []
@@ -1756,6 +2030,29 @@ def search(c, W):
     api_sequences(c, W, cfgs)
     archive_outputs(c, W, cfgs)
     callback_search(c, W, cfgs)
+    history_search(c, W, cfgs)
+
+
+REQUIRED_DIMS = [
+    "N_active < N, testparticle_type 0", "N_active < N, testparticle_type 1", "massive test particles, type 0",
+    "massive test particles, type 1", "massless test particles", "zero-mass active body", "single active body",
+    "variational particles (1st order, non-zero)", "init_megno", "safe_mode=0", "keep_unsynchronized=1", "G != 1", "softening != 0",
+    "dt < 0", "direction reversal between calls", "integrate() split into several calls", "exact_finish_time 0", "exact_finish_time 1",
+    "integrate() with the finish-mode argument omitted", "step longer than a period", "|t|/dt huge",
+    "pre/post_timestep_modifications editing particles", "pre/post_timestep_modifications read-only",
+    "additional_forces (position dependent)", "additional_forces (velocity dependent)", "heartbeat (read-only) during integrate",
+    "history: dt changed after synchronize", "history: particle added after synchronize", "history: particle removed after synchronize",
+    "history: integrator switched, flags set after synchronize", "history: integrator switched, reset_integrator after synchronize",
+    "save / copy / pickle restore mid-run, continued", "archive restore mid-run (getSimulation snapshot/close/exact)",
+    "explicit synchronize", "user edits of particles / flags between steps", "close encounters (MERCURIUS)",
+    "centre of mass offset and moving", "hyperbolic body", "N > 128 (allocation boundary)"]
+
+
+def emit_dimensions(c):
+    c.cov["dimensions"] = {k: v for k, v in sorted(DIMS.items())}
+    for name in REQUIRED_DIMS:
+        if DIMS.get(name, 0) == 0:
+            c.broken.append("proof obligation: dimension '%s' not covered by this run" % name)
 
 
 def run(c):
@@ -1789,6 +2086,7 @@ def run(c):
     replay_eos(c, W, exe)
     probe_first_call(c, d)
     search(c, W)
+    emit_dimensions(c)
 
 
 if __name__ == "__main__":
